@@ -49,6 +49,24 @@ func cidYaml(c gen.CIDCase) string {
 		add("context", s.Context)
 		return sb.String()
 	}
+	if c.Ident != nil {
+		ident = func(gen.CIDSpec) string {
+			var sb strings.Builder
+			first := true
+			for _, kv := range c.Ident {
+				if kv[1] == "" {
+					continue
+				}
+				if first {
+					fmt.Fprintf(&sb, "      - %s: %s\n", kv[0], yq(kv[1]))
+					first = false
+				} else {
+					fmt.Fprintf(&sb, "        %s: %s\n", kv[0], yq(kv[1]))
+				}
+			}
+			return sb.String()
+		}
+	}
 	rtSrc := "      - package: \"zsubj/rt\"\n        method: \"^Source[0-9]$\"\n"
 	rtSnk := "      - package: \"zsubj/rt\"\n        method: \"^Sink[0-9]$\"\n"
 	y := "options:\n  log-level: 1\n  silence-warn: true\ntaint-tracking-problems:\n  - "
@@ -68,8 +86,12 @@ func cidYaml(c gen.CIDCase) string {
 func cidCmd(args []string) int {
 	fs := flag.NewFlagSet("cid", flag.ExitOnError)
 	_, shard, outp := commonFlags(fs)
+	fam := fs.String("family", "calls", "calls | kinds")
 	fs.Parse(args)
 	cases := gen.EnumerateCID()
+	if *fam == "kinds" {
+		cases = gen.EnumerateCIDKinds()
+	}
 	si, sn := parseShard(*shard)
 	o := newOut(*outp)
 	defer o.close()
